@@ -354,7 +354,7 @@ func openNode(root string, famTime int64, expired bool, leaders ...models.NodeID
 	}
 	ctx, cancel := context.WithCancel(context.Background())
 	n.cancel = cancel
-	n.mgr = replica.NewWriteAheadLogManager(ctx, config.GlobalStorageConfig().WAL, leader, n.eng, nil, nil)
+	n.mgr = replica.NewWriteAheadLogManager(ctx, config.GlobalStorageConfig().WAL, leader, n.eng, nil, quietStateMgr{})
 	for _, l := range leaders {
 		ln := &laneState{}
 		ln.imageAck, ln.imageConsumed = readGroupMeta(walDir(root, famTime, l))
@@ -411,6 +411,14 @@ func openNode(root string, famTime int64, expired bool, leaders ...models.NodeID
 	n.use(leaders[0])
 	return n, nil
 }
+
+// quietStateMgr: the storage state manager handed to the WAL manager. The only method lindb calls on it
+// in these cases is WatchNodeStateChangeEvent (NewRemoteReplicator, when a log has a follower's consumer
+// group); no follower ever comes online here, so the handler is dropped. Every other method would panic
+// on the nil embedded interface (and be reported as a harness panic).
+type quietStateMgr struct{ storage.StateManager }
+
+func (quietStateMgr) WatchNodeStateChangeEvent(models.NodeID, func(models.NodeStateType)) {}
 
 // walWasRemoved: the node once had a log for the family (marker file) and its directory is gone.
 func (n *node) walWasRemoved(l models.NodeID) bool {
